@@ -14,17 +14,18 @@ import (
 // (DESIGN Appendix A.3).
 
 type c01Req struct {
-	peer   *Peer
-	ctr    uint64
-	cl     model.CmdClassifierType
-	fn     model.FunctionType
-	src    *model.FeatureAddressType
-	dst    *model.FeatureAddressType
-	dstOK  bool
-	ack    *bool
-	desc   string
-	expect string // "reply" | "ok-if-ack" | "error" | "none" | "skip"
-	canon  string // expected reply payload (canonical) or ""
+	peer    *Peer
+	ctr     uint64
+	cl      model.CmdClassifierType
+	fn      model.FunctionType
+	src     *model.FeatureAddressType
+	dst     *model.FeatureAddressType
+	wantSrc string
+	dstOK   bool
+	ack     *bool
+	desc    string
+	expect  string // "reply" | "ok-if-ack" | "error" | "none" | "skip"
+	canon   string // expected reply payload (canonical) or ""
 }
 
 var featureTypesWithFunctions []model.FeatureTypeType
@@ -372,6 +373,25 @@ func (d *c01Data) genRequest(w *World, p *Peer, servers, clients []*LFeat) *c01R
 			r.expect = "error"
 		}
 	}
+	// what a response has to name as its source: the addressed local feature with the local device
+	// address - whatever the request said about the device part of its destination (seed C01-f):
+	// omitted (legal), or a device address that is not (or no longer) this node's (the stack
+	// addresses by entity and feature and serves such a request like any other)
+	r.wantSrc = AddrStr(r.dst)
+	switch w.T.Choose(8, "dst-device") {
+	case 0:
+		cp := *r.dst
+		cp.Device = nil
+		r.dst = &cp
+		r.desc += "+dst-device-omitted"
+		w.Probe("c01-dst-device-omitted")
+	case 1:
+		cp := *r.dst
+		cp.Device = util.Ptr(model.AddressDeviceType(d.L.Addr + "-0815"))
+		r.dst = &cp
+		r.desc += "+dst-device-other"
+		w.Probe("c01-dst-device-other")
+	}
 	h := p.Header(r.src, r.dst, r.cl, r.ack)
 	if r.cl == model.CmdClassifierTypeResult || (r.cl == model.CmdClassifierTypeReply && w.T.Bool(3, 4, "with-ref")) {
 		h.MsgCounterReference = util.Ptr(model.MsgCounterType(1 + w.T.Choose(5, "ref")))
@@ -467,7 +487,7 @@ func (d *c01Data) check(w *World) {
 					if AddrStr(hd.AddressDestination) != AddrStr(r.src) {
 						w.Violate("C01/wrong-destination/"+shape, "response to %s#%d (%s) is addressed to %s, want the request source %s", p.Name, r.ctr, r.desc, AddrStr(hd.AddressDestination), AddrStr(r.src))
 					}
-					wantSrc := AddrStr(r.dst)
+					wantSrc := r.wantSrc
 					if AddrStr(hd.AddressSource) != wantSrc {
 						w.Violate("C01/wrong-source/"+shape, "response to %s#%d (%s) names %s as source, want %s", p.Name, r.ctr, r.desc, AddrStr(hd.AddressSource), wantSrc)
 					}
